@@ -80,6 +80,7 @@ type thread struct {
 	result   string
 	occ      map[string]int
 	fired    bool
+	updW     int
 	writes   []string // names of the write operations seen (for fault enumeration)
 	c        *caseRun
 }
@@ -140,6 +141,15 @@ func (g *gstore) gate(op, key string, write bool) error {
 		}
 	}
 	name := phase + ":" + op + ":" + class
+	if phase == "update" {
+		// Update writes the record (Set, Set) or deletes it (Delete, Delete, RemoveFromList): name the writes by position
+		if !write {
+			name = "update:read"
+		} else {
+			name = fmt.Sprintf("update:w%d", th.updW)
+			th.updW++
+		}
+	}
 	if k := th.occ[name]; k > 0 {
 		th.occ[name] = k + 1
 		name = fmt.Sprintf("%s#%d", name, k)
